@@ -1,6 +1,7 @@
 """Function sets and shared texts of the property checks."""
 MODS_CORE = ['contracts.c_externs', 'contracts.c_utils', 'contracts.c_scanner',
-             'contracts.c_parser', 'contracts.c_tex2txt']
+             'contracts.c_parser', 'contracts.c_tex2txt',
+             'contracts.c_handlers']
 S = 'yalafi.scanner.Scanner.'
 B = 'yalafi.scanner.Buffer.'
 P = 'yalafi.parser.Parser.'
@@ -57,4 +58,95 @@ def is_safety(name):
 def documented_fatal(name):
     # C07 excludes the documented fatal-error exit (redefinition of the
     # default equation environment, parser.py expand_sequence)
-    return 'Parser.expand_sequence:call:fatal' in name
+    return ('Parser.expand_sequence:call:fatal' in name or
+            # recursive \\LTinput: clean fatal exit (C07 excludes recursion)
+            'handlers.h_load_defs:call:fatal' in name)
+
+
+H = 'yalafi.handlers.'
+PK = 'yalafi.packages.'
+HANDLERS = [
+    H + 'h_newcommand', H + 'h_theorem.<locals>.handler', H + 'h_newtheorem',
+    H + 'h_heading', H + 'h_phantom', H + 'h_hspace', H + 'h_cite',
+    H + 'h_load_defs', H + 'h_load_module.<locals>.f',
+    PK + 'babel.h_foreignlanguage', PK + 'babel.h_selectlanguage',
+    PK + 'babel.h_begin_otherlang', PK + 'babel.h_end_otherlang',
+    PK + 'babel.h_end_otherlang_star', PK + 'biblatex.h_cite',
+    PK + 'biblatex.h_footcite', PK + 'amsthm.h_proof',
+    PK + 'xspace.h_xspace', PK + 'cleveref.h_make_cref.<locals>.f',
+    PK + 'cleveref.h_make_crefrange.<locals>.f',
+    PK + 'cleveref.h_cref_warning', PK + 'glossaries.h_gls.<locals>.f',
+    PK + 'glossaries.h_parse_glsdefs', PK + 'glossaries.get_tokens',
+    PK + 'glossaries.cap_all', PK + 'glossaries.cap_all.<locals>.f',
+]
+# handlers stored in repl=/end_func= slots that are NOT under contract
+# (represented by the generic contract H only): reported in the evidence
+HANDLERS_ASSUMED = [
+    PK + 'amsmath.h_substack (generator iter_token_levels)',
+    PK + 'cleveref.h_read_sed (regex driven sed parser)',
+    PK + 'glossaries.h_newacronym / h_newglossaryentry / modify_description'
+    ' / cap_first (first-character capitalisation of a possibly empty token)',
+    'yalafi.shell.addpacks.init_module.<locals>.add',
+]
+
+
+def decl_lemmas():
+    """`decl:` obligations (by evaluation): every Macro/Environ/EquEnv
+    declaration in the sources whose repl/end_func is a handler under
+    contract satisfies that handler's CodeReq on its literal args string"""
+    import ast
+    from pyvc import front
+    from contracts.c_handlers import CODEREQ, codereq_concrete
+    repo = front.repo()
+    out = []
+    seen_unknown = set()
+    for mi in repo.modules.values():
+        for node in ast.walk(mi.tree):
+            if not (isinstance(node, ast.Call) and (
+                    (isinstance(node.func, ast.Name) and node.func.id in
+                     ('Macro', 'Environ', 'EquEnv')) or
+                    (isinstance(node.func, ast.Attribute) and
+                     node.func.attr in ('Macro', 'Environ', 'EquEnv')))):
+                continue
+            kw = {k.arg: k.value for k in node.keywords}
+            code = ''
+            if 'args' in kw:
+                if not isinstance(kw['args'], ast.Constant):
+                    continue        # computed code string (checked by MacInv)
+                code = kw['args'].value
+            for slot in ('repl', 'end_func'):
+                v = kw.get(slot)
+                if v is None or isinstance(v, ast.Constant):
+                    continue
+                q = _handler_qual(repo, mi, v)
+                if q is None:
+                    continue
+                name = '%s:%d:%s=%s' % (mi.name, node.lineno, slot, q)
+                if q not in CODEREQ:
+                    seen_unknown.add(q)
+                    continue
+                if slot == 'end_func':
+                    ok = True
+                else:
+                    ok = codereq_concrete(CODEREQ[q], code)
+                out.append(('decl:' + name, ok,
+                            'args=%r requires %r' % (code, CODEREQ[q])))
+    return out, sorted(seen_unknown)
+
+
+def _handler_qual(repo, mi, v):
+    import ast
+    call = isinstance(v, ast.Call)
+    f = v.func if call else v
+    r = None
+    if isinstance(f, ast.Name):
+        r = repo.resolve_name(mi, f.id)
+    elif isinstance(f, ast.Attribute) and isinstance(f.value, ast.Name):
+        r = repo.resolve_module_attr(mi, f.value.id, f.attr)
+    if not r or r[0] != 'func':
+        return None
+    q = r[1]
+    if call:
+        inner = [k for k in repo.funcs if k.startswith(q + '.<locals>.')]
+        return inner[0] if inner else None
+    return q
